@@ -59,6 +59,23 @@ pub fn chunky_tileset(rng: &mut Rng) -> TileSet {
 	TileSet { format: TileFormat::BIN, comp: Comp::None, tiles, tilejson: "{\"tilejson\":\"3.0.0\"}".into(), shape: "chunky 4x4 at z10 (columns >= 1 hold 45 kB tiles)".into(), really_compressed: false }
 }
 
+/// a level that holds nothing but one Hilbert-aligned square of identical content: with run
+/// lengths switched on it becomes a single PMTiles run whose middle tiles lie outside the
+/// bounding box of its first and last tile
+pub fn add_aligned_run(ts: &mut TileSet, rng: &mut Rng) {
+	let z = *rng.pick(&[4u8, 6, 11, 13]);
+	ts.tiles.retain(|k, _| k.0 != z);
+	let side = *rng.pick(&[2u32, 4, 8]);
+	let n = (1u32 << z) / side;
+	let (bx, by) = (rng.below(n as u64) as u32 * side, rng.below(n as u64) as u32 * side);
+	for dx in 0..side {
+		for dy in 0..side {
+			ts.tiles.insert((z, bx + dx, by + dy), b"one run".to_vec());
+		}
+	}
+	ts.shape.push_str(&format!(" +z{z}:aligned-run-{side}x{side}"));
+}
+
 fn write_own(ts: &TileSet, target: &str, dir: &Path) -> Result<std::path::PathBuf, String> {
 	let path = container_path(dir, target);
 	if target == "directory" {
@@ -75,6 +92,9 @@ fn write_foreign(ts: &TileSet, target: &str, dir: &Path, rng: &mut Rng) -> Resul
 		"versatiles" => std::fs::write(&path, ivt::encode(ts, &ivt::EncOpts::random(rng), rng)).map_err(|e| e.to_string())?,
 		"pmtiles" => {
 			let mut o = ipm::EncOpts::random(rng, ts.tiles.len());
+			if ts.shape.contains("aligned-run") {
+				o.runs = true;
+			}
 			let mut b = ipm::encode(ts, &o, rng);
 			let mut n = 0;
 			while ipm::root_end(&b) > 16384 && n < 12 {
@@ -153,7 +173,10 @@ pub fn build_source(rng: &mut Rng, kind: usize, dir: &Path, max_tiles: usize) ->
 	match kind {
 		0..=9 => {
 			let target = TARGETS[kind % 5];
-			let ts = if target == "versatiles" && rng.chance(0.2) { chunky_tileset(rng) } else { gen_for(rng, target, max_tiles, false, false) };
+			let mut ts = if target == "versatiles" && rng.chance(0.2) { chunky_tileset(rng) } else { gen_for(rng, target, max_tiles, false, false) };
+			if kind == 6 && rng.chance(0.4) {
+				add_aligned_run(&mut ts, rng);
+			}
 			let path = if kind < 5 { write_own(&ts, target, dir)? } else { write_foreign(&ts, target, dir, rng)? };
 			let reader = open(&path)?;
 			Ok(Built { reader, class, describe: ts.describe(), known: ts.tiles.keys().cloned().collect(), model: Some(ts.tiles.clone()), logs: None })
